@@ -658,3 +658,11 @@ impl Store {
             .unwrap_or(false)
     }
 }
+
+#[cfg(feature = "verif-hooks")]
+impl Store {
+    /// The record linked under `id` in the id map (verification hook, read-only).
+    pub(super) fn verif_find(&self, id: StreamId) -> Option<&Stream> {
+        self.ids.get(&id).map(|i| &self.slab[i.0 as usize])
+    }
+}
